@@ -794,12 +794,25 @@ func areaOtl(c *Ctx) {
 		strings.TrimSuffix(strings.Repeat("2/0/0/n:2:1;", 3001), ";"),
 		strings.TrimSuffix(strings.Repeat("2/16/3/;", 6000), ";"),
 		strings.TrimSuffix(strings.Repeat("2/16/3/;", 6001), ";"),
+		// 300 lookups x 19 subtables = 6000 exactly / one subtable less / one more
+		strings.TrimSuffix(strings.Repeat("1/0/0/"+strings.TrimSuffix(strings.Repeat("n:2:1|", 19), "|")+";", 300), ";"),
+		strings.TrimSuffix(strings.Repeat("1/0/0/"+strings.TrimSuffix(strings.Repeat("n:2:1|", 19), "|")+";", 299), ";") + ";1/0/0/" + strings.TrimSuffix(strings.Repeat("n:2:1|", 18), "|"),
+		strings.TrimSuffix(strings.Repeat("1/0/0/"+strings.TrimSuffix(strings.Repeat("n:2:1|", 19), "|")+";", 299), ";") + ";1/0/0/" + strings.TrimSuffix(strings.Repeat("n:2:1|", 20), "|"),
 	} {
 		out := c.Case(Verdict, "otl.ll.encode", "ll="+line, true)
 		if strings.HasPrefix(out, "ok:") {
 			ll, _ := otlParseLL(line)
 			o := c.Case(Verdict, "otl.ll.read", "ext=9 data="+hx(gtab.VerifEncodeLookupList(ll)), true)
 			c.Stat("ll.budget", outcomeClass(o))
+			total := len(ll)
+			for _, l := range ll {
+				total += len(l.Subtables)
+			}
+			if total <= 6000 {
+				// within the budget of the reader: Encode then readLookupList on the real code gives the list back
+				o := c.Case(Direct, "otl.ll.rt", "ll="+line+" refuse=no", true)
+				c.Stat("ll.budget-rt", fmt.Sprintf("%d:%s", total, outcomeClass(o)))
+			}
 		}
 	}
 	nLargeRead := 0
@@ -3446,6 +3459,31 @@ func otlGenCtxShapes(c *Ctx) {
 	// SeqContext2: classDefOffset = 8 + 2*sets + sets' bytes + coverage at 65534 / 65536 / 65538
 	for _, n := range []int{32751, 32752, 32753} {
 		emit("c2", fmt.Sprintf("st=c2 cov=5-6 cd=5-6:1 sets=-|/%s/>0:0", strings.TrimSuffix(strings.Repeat("1.", n), ".")))
+	}
+	// formats 3 with big sparse coverage sets (16400 glyphs = 32804 bytes as format 1): the 16-bit overflow
+	// falls on the k-th backtrack / input / lookahead coverage offset (refused), or nowhere (written);
+	// D otl.ctx.rt: refused or faithful
+	{
+		q := make([]string, 16400)
+		for k := range q {
+			q[k] = strconv.Itoa(2 * k)
+		}
+		S := strings.Join(q, ",")
+		for _, x := range [][3]string{
+			{"", "7", S + "/" + S + "/9"},  // third lookahead offset overflows, the first two fit
+			{"", "7", S + "/9/" + S},       // fits: the big table is last
+			{"5", "7", S + "/9/" + S + "/3"}, // fourth lookahead offset overflows
+			{S, "7", S + "/9"},             // second lookahead offset overflows
+			{S + "/" + S, "7", ""},         // the input offset overflows
+			{S + "/" + S + "/5", "7", "9"}, // third backtrack offset overflows
+			{S, S + "/7", ""},              // second input offset overflows
+			{S, "7/" + S, "9"},             // the lookahead offset overflows after a big input table
+		} {
+			emit("C3", fmt.Sprintf("st=C3 back=%s input=%s look=%s acts=0:1", x[0], x[1], x[2]))
+		}
+		emit("c3", fmt.Sprintf("st=c3 covs=%s/%s/9 acts=0:1", S, S))
+		emit("c3", fmt.Sprintf("st=c3 covs=%s/9/%s acts=0:1", S, S))
+		emit("c3", fmt.Sprintf("st=c3 covs=7/%s/%s/9 acts=", S, S))
 	}
 	// format 3 without (input) coverage: written by the encoders, rejected by the readers (known finding
 	// C08-context3-no-input, D otl.ctx.rt)
